@@ -79,6 +79,9 @@ var failTemplates = []failTpl{
 	{"panic-inside-eval-in-function", "panic:runtime", func(r *core.Rng, _ []string) string {
 		return core.Pick(r, []string{`(() => { ev9 := c => eval(c); ev9("1 / 0") })()`, `(() => { ev9 := c => { println("evaluating"); eval(c) }; ev9("5 % 0") + 1 })()`, `eval("1 / 0")`})
 	}},
+	{"panic-on-the-right-of-a-pipe", "panic:runtime", func(r *core.Rng, _ []string) string {
+		return core.Pick(r, []string{`"leaked stdin" | (x => 1 / 0)(1)`, `(() => { "piped" | div9(1, 0) })()`})
+	}},
 	{"div0-in-lambda", "panic:runtime", func(_ *core.Rng, _ []string) string { return `(() => { z9 := 0; 1 / z9 })()` }},
 	{"negshift-in-lambda", "panic:runtime", func(_ *core.Rng, _ []string) string { return `(() => { z9 := 0 - 1; 1 << z9 })()` }},
 	{"div0-in-nested-call-in-loop", "panic:runtime", func(r *core.Rng, _ []string) string {
@@ -359,6 +362,13 @@ func (c10) Execute(h *core.History) *core.Outcome {
 			}
 			if r.BudgetHit {
 				st.Discarded = true
+			}
+			if really && sess.St.GetPipeValue() != nil && o.Viol == nil {
+				// state read by later exec() calls (their stdin): observable only with process execution enabled, so
+				// looked at directly
+				o.Viol = &core.Violation{Oracle: "later-input-differs", Event: i, Sig: "C10|" + e.Key + "/" + r.Class + "|pipe-value-left",
+					Detail: fmt.Sprintf("after the failing input %q the pipe value %q is still set: the next exec() would receive it as stdin", trunc(src, 200), trunc(string(sess.St.GetPipeValue()), 50))}
+				break
 			}
 			shape = append(shape, "fail:"+fk+":"+r.Class)
 			continue
